@@ -13,14 +13,35 @@ func vpIndexOf(es []*store.Entry) *store.Index {
 
 // vpPool: m distinct ascending paths (prefix-free); for each, membership in HEAD and in the index and the two ids are free.
 func vpPool(m, depth, maxc int) (head, idx []*store.Entry) {
-	all := vpEntries(m, depth, maxc)
+	// paths ascending and distinct; a path may be a directory prefix of another one as long as the two are not in the same
+	// snapshot (a file replaced by a directory, or the reverse, between HEAD and the staging area)
+	var all []*store.Entry
+	for i := 0; i < m; i++ {
+		p := vpPath("p"+string(rune('0'+i)), depth, maxc)
+		if i > 0 {
+			zzvp.Assume(string(all[i-1].Path) < p)
+		}
+		h := []byte{byte(0x10 + i), 0x20, 0x0a, 0, 1, 2, 3, 4, 5, 6, 7, 8, 9, 10, 11, 12, 13, 14, 15, byte(0xf0 + i)}
+		all = append(all, store.NewEntry(sha.SHA1(h), []byte(p)))
+	}
+	conflict := func(set []*store.Entry, e *store.Entry) bool {
+		c := false
+		for _, o := range set {
+			if vpHasDirPrefix(string(e.Path), string(o.Path)) || vpHasDirPrefix(string(o.Path), string(e.Path)) {
+				c = true
+			}
+		}
+		return c
+	}
 	for i, e := range all {
 		inHead := zzvp.Bool("inHead" + string(rune('0'+i)))
 		inIdx := zzvp.Bool("inIdx" + string(rune('0'+i)))
 		if inHead {
+			zzvp.Assume(!conflict(head, e))
 			head = append(head, e)
 		}
 		if inIdx {
+			zzvp.Assume(!conflict(idx, e))
 			h2 := e.Hash
 			if zzvp.Bool("changed" + string(rune('0'+i))) {
 				h2 = sha.SHA1([]byte{byte(0x80 + i), 0x20, 0x0a, 0, 1, 2, 3, 4, 5, 6, 7, 8, 9, 10, 11, 12, 13, 14, 15, byte(0x70 + i)})
